@@ -209,8 +209,15 @@ def part_c(ctx, I, budget):
         elif mode == "derived":
             # a provenance DERIVED from the default one-row-per-unit object by selecting rows: same-length permutations, reversed slices, bootstrap
             # resamples (repeats: some units own several rows, some none), shorter and longer selections
-            kind_ = rng.choice(["perm", "reverse", "resample", "resample", "subset", "longer"])
-            if kind_ == "perm":
+            kind_ = rng.choice(["perm", "reverse", "resample", "resample", "subset", "longer", "fork_resample", "fork_resample"])
+            if kind_ == "fork_resample" and n_units < 2:
+                kind_ = "resample"
+            if kind_ == "fork_resample":
+                # bootstrap multiplicities applied with fork(): as many rows as before, but some unit owns two or more of them and some unit owns none
+                groups = sorted(rng.randrange(n_units) for _ in range(n_units))
+                if groups == list(range(n_units)):
+                    groups[0] = groups[1]
+            elif kind_ == "perm":
                 groups = rng.sample(range(n_units), n_units)
             elif kind_ == "reverse":
                 groups = list(range(n_units - 1, -1, -1))
@@ -292,7 +299,13 @@ def part_c(ctx, I, budget):
         elif mode == "derived":
             base = P.Provenance(units=n_units)
             how = rng.choice(["list", "array", "slice"]) if groups == list(range(n_units - 1, -1, -1)) else rng.choice(["list", "array"])
-            provenance = base[::-1] if how == "slice" else (base[list(groups)] if how == "list" else base[np.array(groups, dtype=int)])
+            if groups == sorted(groups) and (kind_ == "fork_resample" or rng.random() < 0.5):
+                how = "fork"
+            if how == "fork":
+                sizes_ = [groups.count(u) for u in range(n_units)]
+                provenance = base.fork(np.array(sizes_, dtype=int) if rng.random() < 0.5 else sizes_)
+            else:
+                provenance = base[::-1] if how == "slice" else (base[list(groups)] if how == "list" else base[np.array(groups, dtype=int)])
             preq = {"nUnits": n_units, "exprs": [{"eq": [g_, 1]} for g_ in groups]}        # all n_units units exist, whether or not a selected row mentions them
             simple = False
         elif mode == "edited":
